@@ -134,7 +134,7 @@ def build_and_audit(prop, extra_targets=()):
 	result['obligations'] = len(theorems)
 	result['theorems'] = theorems
 
-	code, log = lake(['build', 'driver'])
+	code, log = lake(['build', f'driver_{prop.lower()}'])
 	result['driver_ok'] = 0 == code
 	if 0 != code:
 		result['log'] += log[-4000:]
@@ -182,11 +182,11 @@ def build_and_audit(prop, extra_targets=()):
 class Driver:
 	"""The Lean model behind its line protocol."""
 
-	def __init__(self):
-		exe = os.path.join(LEAN, '.lake', 'build', 'bin', 'driver')
+	def __init__(self, prop):
+		exe = os.path.join(LEAN, '.lake', 'build', 'bin', f'driver_{prop.lower()}')
 		self.proc = subprocess.Popen([exe], stdin=subprocess.PIPE, stdout=subprocess.PIPE, text=True, bufsize=1)  # pylint: disable=consider-using-with
 		self.requests = 0
-		if 'pong' != self.ask('ping.x'):
+		if 'pong' != self.ask('ping'):
 			raise RuntimeError('driver does not answer')
 
 	def ask(self, line):
